@@ -18,6 +18,7 @@ type Profile struct {
 	Txs, OpsMin, OpsMax      int
 	Reopen, ReadOnly, Abort  int // percentages
 	Oversize                 int // percentage of puts that exceed the segment
+	IdxHeavy                 bool // many LSet / LTrim calls per transaction
 	Buckets, Keys, Vals      []string
 	NoSPop, NoSMove          bool
 	ReadAfterWrite           bool // allow a tx to read a structure it wrote (C13 trigger)
@@ -210,6 +211,21 @@ func (g *Gen) listOp(write bool) {
 		}
 		first := !g.wrote[g.skey("list", b)]
 		g.wrote[g.skey("list", b)] = true
+		if g.p.ReadAfterWrite && !first && g.r.Chance(1, 3) {
+			// a count-limited removal after the list was already popped / trimmed in this transaction:
+			// valid against the committed list when called, possibly not when the record is applied
+			g.add("lrem %s %s %d %s", hb, k, []int{1, 2, 3, -1, -2, -3}[g.r.Intn(6)], hx([]byte(g.pick(g.p.Vals))))
+			return
+		}
+		if g.p.IdxHeavy && g.r.Chance(2, 3) {
+			// several index-addressed list writes (LSet / LTrim) on different lists in one transaction
+			if g.r.Bool() {
+				g.add("lset %s %s %d %s", hb, k, g.r.Range(0, 2), hx(g.val()))
+			} else {
+				g.add("ltrim %s %s %d %d", hb, k, g.r.Range(0, 1), []int{-1, 2, 3, 1}[g.r.Intn(4)])
+			}
+			return
+		}
 		switch g.r.Intn(12) {
 		case 0, 1, 2:
 			g.add("rpush %s %s %s", hb, k, g.vlist())
